@@ -68,7 +68,7 @@ func TestC07(t *testing.T) {
 		pc, cc := 0, 0
 		add := func(async, ctxAware bool) {
 			h := &hs{}
-			r := &conc.Reg{T: 0, Seq: true, Async: async, Ctx: ctxAware}
+			r := &conc.Reg{T: 0, Seq: true, Async: async, Ctx: ctxAware, Filter: async && i%5 == 2 && len(hl) == 1}
 			if ctxAware {
 				r.Class, cc = cc, cc+1
 			} else {
@@ -91,10 +91,14 @@ func TestC07(t *testing.T) {
 		}
 		add(rng.IntN(2) == 0, false)
 		add(true, rng.IntN(2) == 0)
+		filtered := i%5 == 2
+		_ = filtered // (the async+sequential handler only accepts even ids in these rounds: rejected events take no ticket and no turn)
+		lateCancel := i%5 == 3
 		if rng.IntN(2) == 0 {
 			add(false, true)
 		}
 		published := make([][]uint64, P)
+		var maybe sync.Map // ids whose context ended after the publish returned
 		var wg sync.WaitGroup
 		start := make(chan struct{})
 		for g := 0; g < P; g++ {
@@ -108,6 +112,15 @@ func TestC07(t *testing.T) {
 						// a publish whose context is already cancelled: no delivery is owed, and it must
 						// not disturb the deliveries of the live publishes around it
 						w.PublishID(g, 0, dead, id)
+						continue
+					}
+					if lateCancel && (k+g)%4 == 2 {
+						// the context ends right after the publish returned: an async delivery may find it
+						// over when its turn comes (at most once), and must still hand the turn on
+						c, cancel := context.WithCancel(context.Background())
+						w.PublishID(g, 0, c, id)
+						cancel()
+						maybe.Store(id, true)
 						continue
 					}
 					published[g] = append(published[g], id)
@@ -157,7 +170,7 @@ func TestC07(t *testing.T) {
 					if depth > 1 {
 						run.Violation("seq:overlap-stamps", fmt.Sprintf("sequential registration #%d entered for event %d before the previous invocation had exited", r.ID, e.EID), map[string]any{"case": i, "gomaxprocs": procs[i%len(procs)]})
 					}
-					if r.Async {
+					if _, tracked := owner[e.EID]; r.Async && tracked {
 						g := owner[e.EID]
 						if rank[e.EID] < last[g] {
 							run.Violation("seq:async-order", fmt.Sprintf("async+sequential registration #%d processed event %d (the %d-th publish of goroutine %d) after a later publish of the same goroutine (%d-th)", r.ID, e.EID, rank[e.EID], g, last[g]),
@@ -172,14 +185,32 @@ func TestC07(t *testing.T) {
 			_ = pend
 			// exactly once
 			for id := range owner {
+				if r.Filter && id%2 == 1 {
+					if c := h.Deliv[[2]uint64{uint64(r.ID), id}]; c != 0 {
+						run.Violation("seq:filter-ignored", fmt.Sprintf("sequential registration #%d received event %d which its filter rejects", r.ID, id), map[string]any{"case": i})
+					}
+					continue
+				}
 				if c := h.Deliv[[2]uint64{uint64(r.ID), id}]; c != 1 {
 					run.Violation("seq:not-exactly-once", fmt.Sprintf("sequential registration #%d received event %d %d times", r.ID, id, c), map[string]any{"case": i})
 					break
 				}
 			}
-			if x.canary != 2*len(owner) {
-				run.Violation("seq:canary", fmt.Sprintf("unsynchronised canary of registration #%d is %d after %d deliveries (lost update = overlapping bodies)", r.ID, x.canary, len(owner)), map[string]any{"case": i})
+			nd := 0
+			for k, c := range h.Deliv {
+				if int(k[0]) == r.ID {
+					nd += c
+				}
 			}
+			if x.canary != 2*nd {
+				run.Violation("seq:canary", fmt.Sprintf("unsynchronised canary of registration #%d is %d after %d deliveries (lost update = overlapping bodies)", r.ID, x.canary, nd), map[string]any{"case": i})
+			}
+			maybe.Range(func(k, _ any) bool {
+				if c := h.Deliv[[2]uint64{uint64(r.ID), k.(uint64)}]; c > 1 {
+					run.Violation("seq:not-exactly-once", fmt.Sprintf("sequential registration #%d received event %d %d times", r.ID, k.(uint64), c), map[string]any{"case": i})
+				}
+				return true
+			})
 		}
 		// pending invocations: publishes whose call precedes an enter that had not happened yet
 		maxPending = pendingEstimate(w.Log, hl[1].r.ID)
